@@ -15,9 +15,23 @@ from .symex import u
 _INT_TYPES = ("int", "np.int64", "np.int32", "np.int_", "'int64'", '"int64"', "'int'", '"int"', "'int32'")
 
 
-def scan_function(fn: ast.AST, member_name: str, ordering_scope: bool) -> List[Tuple[str, str, str]]:
-    """-> [(kind, construct text, why)]"""
+def scan_function(fn: ast.AST, member_name: str, ordering_scope: bool, helpers=()) -> List[Tuple[str, str, str]]:
+    """-> [(kind, construct text, why)]   `helpers`: the private helpers of the same class that `fn` calls (an orientation
+    decided here may be APPLIED there)."""
     out = []
+    # shape validation (`if a.shape[0] != b.shape[0]: raise`, assert) is not an orientation decision
+    validation = set()
+    for n in ast.walk(fn):
+        if isinstance(n, ast.Assert) or (isinstance(n, ast.If) and n.body and isinstance(n.body[0], ast.Raise)):
+            validation |= {id(x) for x in ast.walk(n.test)}
+    orientation = None
+    for n in ast.walk(fn):
+        if isinstance(n, ast.Compare) and id(n) not in validation and _extent_equality(n) and not _inside_test(fn, n):
+            if orientation is None:
+                orientation = _has_orientation_op(fn) or any(_has_orientation_op(h) for h in helpers)
+            if orientation:
+                out.append(("extent-guessed-orientation", u(n)[:70], "whether a vector runs along the rows or the columns is decided by comparing its LENGTH with an extent of the block: both match when the block is square, and the vector is laid out the wrong way"))
+    out += _int_only_value_tests(fn)
     for n in ast.walk(fn):
         if isinstance(n, ast.BinOp) and isinstance(n.op, ast.FloorDiv):
             out.append(("floor-division", u(n)[:70], "weighted counts and bases are fractional: integer division truncates them"))
@@ -47,6 +61,58 @@ def scan_function(fn: ast.AST, member_name: str, ordering_scope: bool) -> List[T
             if isinstance(n, ast.Call) and u(n.func) in ("list", "tuple", "np.array", "np.fromiter") and n.args and isinstance(n.args[0], ast.Call) and u(n.args[0].func) in ("set", "frozenset"):
                 out.append(("unordered", u(n)[:70], "a set turned into a sequence has arbitrary order"))
     return out
+
+
+def _int_only_value_tests(fn: ast.AST) -> List[Tuple[str, str, str]]:
+    """isinstance(<element value>, (int, str)): the VALUE of a response element (`el["value"]`, `el.get("value")`) of a
+    numeric variable may be fractional (1.5): a type test that lets int through but not float treats such an element as
+    if it carried no value (the test is meant to exclude the missing element, whose value is a dict)."""
+    from .stmts import resolver
+
+    res = None
+    out = []
+    for n in ast.walk(fn):
+        if not (isinstance(n, ast.Call) and isinstance(n.func, ast.Name) and n.func.id == "isinstance" and len(n.args) == 2):
+            continue
+        kinds = n.args[1].elts if isinstance(n.args[1], ast.Tuple) else [n.args[1]]
+        names = {u(k) for k in kinds}
+        if "int" not in names or names & {"float", "numbers.Number", "numbers.Real", "Number", "Real", "np.floating", "np.number"}:
+            continue
+        if res is None:
+            res = resolver(fn, multi=True)
+        try:
+            vals = res(n.args[0])
+        except Exception:
+            vals = [n.args[0]]
+        def is_value(v):
+            if isinstance(v, ast.Subscript) and isinstance(v.slice, ast.Constant) and v.slice.value == "value":
+                return True
+            return isinstance(v, ast.Call) and isinstance(v.func, ast.Attribute) and v.func.attr == "get" and v.args and isinstance(v.args[0], ast.Constant) and v.args[0].value == "value"
+        direct = [n.args[0]] + list(vals)
+        # a loop / comprehension variable over a list of such values
+        if any(is_value(v) for v in direct) or _iterates_values(fn, n.args[0], is_value, res):
+            out.append(("int-only-value", u(n)[:70], "an element value may be a float (numeric variable with fractional values): a test that admits int but not float drops such elements"))
+    return out
+
+
+def _iterates_values(fn, target, is_value, res) -> bool:
+    if not isinstance(target, ast.Name):
+        return False
+    for n in ast.walk(fn):
+        if isinstance(n, (ast.For, ast.comprehension)):
+            names = [x.id for x in ast.walk(n.target) if isinstance(x, ast.Name)]
+            if target.id not in names:
+                continue
+            its = [n.iter] + (list(n.iter.args) if isinstance(n.iter, ast.Call) and u(n.iter.func) in ("zip", "enumerate") else [])
+            for it in its:
+                try:
+                    vals = res(it)
+                except Exception:
+                    vals = [it]
+                for v in vals:
+                    if isinstance(v, (ast.ListComp, ast.GeneratorExp)) and is_value(v.elt):
+                        return True
+    return False
 
 
 def _only_repeat_counts(fn: ast.AST, cast: ast.Call) -> bool:
@@ -79,6 +145,18 @@ def _is_extent(e: ast.AST) -> bool:
         return True
     if isinstance(e, ast.Attribute) and e.attr == "size":
         return True
+    return False
+
+
+def _inside_test(fn: ast.AST, cmp_: ast.AST) -> bool:
+    """The comparison IS the test of an if / conditional expression (reported by the statement-level rule below)."""
+    for n in ast.walk(fn):
+        if isinstance(n, (ast.If, ast.IfExp)):
+            t = n.test
+            while isinstance(t, ast.UnaryOp) and isinstance(t.op, ast.Not):
+                t = t.operand
+            if t is cmp_:
+                return True
     return False
 
 
@@ -133,12 +211,16 @@ def f(self, counts, order):
 
 def columns_scale_median_margin(self, c):
     return np.nan_to_num(c).astype("int64"), sorted(set(c)), c is None
+
+def pad(self, elements):
+    values = [el.get("value") for el in elements]
+    return [v for v in values if isinstance(v, (int, str))] + [el for el in elements if isinstance(el["value"], (int, float, str))]
 '''
 
 
 def self_check() -> Tuple[int, int]:
     t = ast.parse(CONTROL)
-    return len(scan_function(t.body[0], "f", True)) + len(scan_function(t.body[0], "f", False)), len(scan_function(t.body[1], "columns_scale_median_margin", True))
+    return len(scan_function(t.body[0], "f", True)) + len(scan_function(t.body[0], "f", False)) + len(scan_function(t.body[2], "pad", False)), len(scan_function(t.body[1], "columns_scale_median_margin", True))
 
 
 # --------------------------------------------------------------------------- sets turned into sequences (hash-seed dependence)
